@@ -61,7 +61,8 @@ KF_HASHSEED = 'C13-nondet-hash-seed-order'
 # ---------------------------------------------------------------- schemas / spec
 
 def make_spec():
-    schemas = {'g1': {'sdl': open(os.path.join(CORPUS, 'g1.esdl'), encoding='utf-8').read(), 'modname': 'default'}}
+    schemas = {'g1': {'sdl': open(os.path.join(CORPUS, 'g1.esdl'), encoding='utf-8').read(), 'modname': 'default'},
+               'g2': {'sdl': open(os.path.join(CORPUS, 'g2.esdl'), encoding='utf-8').read(), 'modname': 'default'}}
     sdir = os.path.join(lib.REPO, 'tests', 'schemas')
     for fn in UPSTREAM_SCHEMAS:
         p = os.path.join(sdir, fn)
@@ -148,7 +149,7 @@ def gen_cases(tier, spec):
         txt, feats, npar = G.gen_statement(rnd, malformed=True)
         cases.append({'line': enc_case('g1', 'n', txt), 'origin': 'malformed', 'feats': feats})
     # upstream seeds: as they are, and recombined
-    have = {k + '.esdl' for k in spec['schemas'] if k != 'g1'}
+    have = {k + '.esdl' for k in spec['schemas'] if k not in ('g1', 'g2')}
     seeds = G.upstream_seeds(lib.REPO, have) if have else []
     rnd.shuffle(seeds)
     n_seed = int((800 if thorough else 130) * SCALE)
